@@ -507,8 +507,9 @@ def opcodes(R):
     for s in m.live:
         if isinstance(s, ast.Assign) and U(s.targets[0]) == 'reserved_opcodes':
             res = fold(R, s.value, None, env={}) if False else None
-            vs = []
+            vs = None
             if isinstance(s.value, (ast.Set, ast.List, ast.Tuple)):
+                vs = []
                 for e in s.value.elts:
                     if isinstance(e, ast.Attribute) and U(e.value) == 'Opcode' and e.attr in vals:
                         vs.append(vals[e.attr])
@@ -518,6 +519,11 @@ def opcodes(R):
                         vs = None
                         break
             res = set(vs) if vs is not None else None
+            if res is None:
+                # built by an expression over constants (ranges, unions, a helper function)
+                v_ = mc.get('reserved_opcodes')
+                if isinstance(v_, (set, frozenset, list, tuple)) and all(isinstance(x, int) for x in v_):
+                    res = set(int(x) for x in v_)
     need(res is not None, 'reserved_opcodes is not a constant set')
     want = set(range(16)) - {0, 1, 2, 8, 9, 10}
     R.ob('C04.opcodes', 'reserved set', res == want, 'reserved_opcodes = %s, RFC 6455 says %s' % (sorted(res), sorted(want)),
